@@ -175,6 +175,50 @@ fn emit(sh: &mut Shards, st: &mut Stats, it: &Item, co: &ChildObs) {
     sh.push(term, vec![rep]);
 }
 
+/// value expressions around the bound on the height of the syntax tree (MAX_EXPR_HEIGHT = 256,
+/// finding C06-F23): the tallest accepted tree and the shortest rejected one, for each way a
+/// tree grows (a chain of n operands is n high, parentheses and a minus sign add one, a
+/// negative literal as an operand is a negation: 2).  The flag says whether the text is in the
+/// documented grammar of Model/DocGrammarTxn.v (height index at most 256): those must be
+/// accepted; for the others the error position and label are compared with the model.
+fn height_boundary() -> Vec<(String, bool)> {
+    let mut v = Vec::new();
+    let chain = |first: &str, more: &str, n: usize| format!("{}{}", first, more.repeat(n - 1));
+    let post = |e: String| format!("2024/01/01 x\n  A  {}\n  B\n", e);
+    for (n, ok) in [(200usize, true), (255, true), (256, false), (257, false), (700, false)] {
+        v.push((post(format!("({})", chain("1", "+1", n))), ok));
+        v.push((post(format!("({})", chain("1 USD", " + 1 USD", n))), ok));
+        v.push((post(format!("( {} )", chain("1 USD", "*2", n))), ok));
+        // n terms `x / 1` (2 high each but the last) subtracted: n + 1 high, + 1 for the parentheses
+        v.push((post(format!("({})", chain("9 USD", " / 1 - 0 USD", n))), n + 2 <= 256));
+        v.push((post(format!("1 AAA @ ({})", chain("1 USD", " + 1 USD", n))), ok));
+        v.push((post(format!("1 AAA {{({})}}", chain("1 USD", " + 1 USD", n))), ok));
+        v.push((format!("2024/01/01 x\n  A  1 USD = ({})\n  B\n", chain("1 USD", " + 0 USD", n)), ok));
+        // the parentheses are what makes it too tall: the chain alone is allowed
+        v.push((post(format!("(({}) * 2)", chain("1 USD", " + 1 USD", n.saturating_sub(2).max(1)))), ok));
+        v.push((post(format!("(-({}))", chain("1", "+1", n.saturating_sub(2).max(1)))), ok));
+    }
+    // a negative literal as an operand counts 2: it is the first operand, so n operands are n + 1 high
+    for (n, ok) in [(254usize, true), (255, false)] {
+        v.push((post(format!("({})", chain("-1", "+1", n))), ok));
+        v.push((post(format!("({})", chain("--1", "+1", n))), ok));
+    }
+    // ... and as the last operand it does not matter
+    v.push((post(format!("({}+-1)", chain("1", "+1", 254))), true));
+    v.push((post(format!("({}*-1)", chain("1", "*1", 255))), false));
+    // chains inside nested parentheses: each level of (x + 1 + 1) is 3 taller: 1 + 3n
+    for (n, ok) in [(84usize, true), (85, true), (86, false), (100, false), (101, false)] {
+        v.push((post(format!("{}1 USD{}", "(".repeat(n), " + 1 USD + 1 USD)".repeat(n))), ok));
+        v.push((post(format!("{}1 USD{}", "(1 USD + 1 USD * ".repeat(n), ")".repeat(n))), ok));
+        v.push((post(format!("{}1 USD{}", "(-".repeat(n), " + 1 USD - 1 USD)".repeat(n))), false));
+    }
+    for (n, ok) in [(63usize, true), (64, false)] {
+        // (-x + 1 + 1) is 4 taller than x
+        v.push((post(format!("{}1 USD{}", "(-".repeat(n), " + 1 USD + 1 USD)".repeat(n))), ok));
+    }
+    v
+}
+
 fn corpus_items(o: &Opts) -> Vec<Item> {
     let mut items = Vec::new();
     let builtin: [(&str, bool); 27] = [
@@ -208,6 +252,9 @@ fn corpus_items(o: &Opts) -> Vec<Item> {
     ];
     for (t, d) in builtin {
         items.push(Item { text: t.to_string(), doc: d, stream: "corpus", tags: vec![] });
+    }
+    for (t, d) in height_boundary() {
+        items.push(Item { text: t, doc: d, stream: "height-boundary", tags: vec![] });
     }
     if let Ok(rd) = std::fs::read_dir(&o.corpus) {
         let mut files: Vec<_> = rd.filter_map(|e| e.ok()).map(|e| e.path()).collect();
